@@ -38,6 +38,8 @@ type c10Rig struct {
 	muxer   *hls.Muxer
 	hasVideo bool
 	patpmt   []byte // what the remuxer announced last
+	keepGiven bool
+	given, givenCopy [][]byte
 
 	// ground truth
 	started  bool     // a segment file has been created in this incarnation
@@ -60,6 +62,12 @@ func (r *c10Rig) OnPatPmt(b []byte) {
 func (r *c10Rig) OnTsPackets(p []byte, frame *mpegts.Frame, boundary bool) {
 	before := r.started
 	cp := append([]byte(nil), p...)
+	if r.keepGiven {
+		// the slice as handed over (consumers such as the HTTP-TS GOP cache and the asynchronous
+		// write queues keep it) next to a private copy taken now
+		r.given = append(r.given, p)
+		r.givenCopy = append(r.givenCopy, cp)
+	}
 	r.muxer.FeedMpegts(p, frame, boundary)
 	if before || r.started {
 		// (if the first segment was created during this very call the packets are in it)
